@@ -97,6 +97,16 @@ pub trait Ext: Fixed + AzExt {
     /// deprecated inherent forms (still public API)
     fn x_wrapping_rem_int(self, i: Self::Bits) -> Self;
     fn x_overflowing_rem_int(self, i: Self::Bits) -> (Self, bool);
+    // the same methods through the FixedSigned / FixedUnsigned TRAITS (separate impls that delegate to the inherent ones)
+    fn t_abs(self) -> Self;
+    fn t_signum(self) -> Self;
+    fn t_checked_abs(self) -> Option<Self>;
+    fn t_saturating_abs(self) -> Self;
+    fn t_wrapping_abs(self) -> Self;
+    fn t_overflowing_abs(self) -> (Self, bool);
+    fn t_is_power_of_two(self) -> bool;
+    fn t_next_power_of_two(self) -> Self;
+    fn t_checked_next_power_of_two(self) -> Option<Self>;
     // iter::Sum / iter::Product over values and over references (impls exist per concrete family only)
     fn x_sum_val(xs: &[Self]) -> Self;
     fn x_sum_ref(xs: &[Self]) -> Self;
@@ -214,6 +224,15 @@ macro_rules! ext_signed {
             fn x_is_power_of_two(self) -> bool { unreachable!() }
             fn x_next_power_of_two(self) -> Self { unreachable!() }
             fn x_checked_next_power_of_two(self) -> Option<Self> { unreachable!() }
+            fn t_abs(self) -> Self { <Self as FixedSigned>::abs(self) }
+            fn t_signum(self) -> Self { <Self as FixedSigned>::signum(self) }
+            fn t_checked_abs(self) -> Option<Self> { <Self as FixedSigned>::checked_abs(self) }
+            fn t_saturating_abs(self) -> Self { <Self as FixedSigned>::saturating_abs(self) }
+            fn t_wrapping_abs(self) -> Self { <Self as FixedSigned>::wrapping_abs(self) }
+            fn t_overflowing_abs(self) -> (Self, bool) { <Self as FixedSigned>::overflowing_abs(self) }
+            fn t_is_power_of_two(self) -> bool { unreachable!() }
+            fn t_next_power_of_two(self) -> Self { unreachable!() }
+            fn t_checked_next_power_of_two(self) -> Option<Self> { unreachable!() }
         }
     )*};
 }
@@ -236,6 +255,15 @@ macro_rules! ext_unsigned {
             fn x_is_power_of_two(self) -> bool { self.is_power_of_two() }
             fn x_next_power_of_two(self) -> Self { self.next_power_of_two() }
             fn x_checked_next_power_of_two(self) -> Option<Self> { self.checked_next_power_of_two() }
+            fn t_abs(self) -> Self { unreachable!() }
+            fn t_signum(self) -> Self { unreachable!() }
+            fn t_checked_abs(self) -> Option<Self> { unreachable!() }
+            fn t_saturating_abs(self) -> Self { unreachable!() }
+            fn t_wrapping_abs(self) -> Self { unreachable!() }
+            fn t_overflowing_abs(self) -> (Self, bool) { unreachable!() }
+            fn t_is_power_of_two(self) -> bool { <Self as FixedUnsigned>::is_power_of_two(self) }
+            fn t_next_power_of_two(self) -> Self { <Self as FixedUnsigned>::next_power_of_two(self) }
+            fn t_checked_next_power_of_two(self) -> Option<Self> { <Self as FixedUnsigned>::checked_next_power_of_two(self) }
         }
     )*};
 }
